@@ -1,16 +1,23 @@
 #!/usr/bin/env python3
-"""Insert /repo commit hashes into 'fixed:' lines of known-findings.txt that only quote the fix commit's subject."""
+"""Normalise 'fixed:' lines of known-findings.txt: exactly one /repo main commit hash right after property=Cxx,
+looked up by the fix commit's subject quoted in the line (builders wrote hashes of their own worktrees)."""
 import subprocess, os, re
 ROOT = os.path.dirname(os.path.dirname(os.path.abspath(__file__)))
 p = os.path.join(ROOT, "known-findings.txt")
 log = subprocess.run("git -C /repo log --format='%h %s' main", shell=True, capture_output=True, text=True).stdout.splitlines()
+subj2h = {}
+for entry in log:
+    h, subj = entry.split(" ", 1)
+    if subj.startswith("fix:"):
+        subj2h[subj] = h
 out = []
 for line in open(p).read().splitlines():
     if line.startswith("fixed:"):
-        for entry in log:
-            h, subj = entry.split(" ", 1)
-            if subj.startswith("fix:") and subj in line and h not in line:
-                line = re.sub(r"(property=\S+)\s+", r"\1 " + h + " ", line, count=1)
-                break
+        hit = [s for s in subj2h if s in line]
+        if hit:
+            subj = max(hit, key=len)
+            m = re.match(r"(fixed:\s+property=\S+)\s+((?:[0-9a-f]{7,40}\s+)*)(.*)", line)
+            if m:
+                line = f"{m.group(1)} {subj2h[subj]} {m.group(3)}"
     out.append(line)
 open(p, "w").write("\n".join(out) + "\n")
